@@ -88,12 +88,17 @@ pub fn handle(args: &[&str]) -> Option<String> {
     } else {
         String::new() // a bound outside i64 is read as a reference: the module is refused as it is
     };
+    // … and the same constraint in three other places of the same module, where the field type, the
+    // attribute and the constants have to be those of `T.v`: with named numbers that lie outside of the
+    // range (X.680 19.5: named numbers do not constrain the type), and as the element of a SEQUENCE OF /
+    // SET OF that is a component of a SEQUENCE and an alternative of a CHOICE
+    let range = format!("({}..{}{})", min, max, if ext { ", ..." } else { "" });
     let text = format!(
-        "M DEFINITIONS AUTOMATIC TAGS ::= BEGIN T ::= SEQUENCE {{ v INTEGER ({}..{}{}) }} {} END",
-        min,
-        max,
-        if ext { ", ..." } else { "" },
-        assignment
+        "M DEFINITIONS AUTOMATIC TAGS ::= BEGIN T ::= SEQUENCE {{ v INTEGER {r} }} {a} \
+         N ::= SEQUENCE {{ v INTEGER {{ far-down(-9223372036854775808), far-up(9223372036854775807), nil(0) }} {r} }} \
+         L ::= SEQUENCE {{ v SEQUENCE OF INTEGER {r}, w SET OF INTEGER {r} }} END",
+        r = range,
+        a = assignment
     );
     let tokens = Tokenizer::default().parse(&text);
     let model = match Model::try_from(tokens) {
@@ -134,6 +139,51 @@ pub fn handle(args: &[&str]) -> Option<String> {
     if let Some(kty) = between(code, "pub const K: ", " =") {
         if kty.trim() != field {
             return Some(format!("vconst-differs field={} const={}", field, kty.trim()));
+        }
+    }
+    // the other places (see above)
+    {
+        let after = |text: &'static str| code.find(text).map(|i| &code[i..]);
+        let n = after("pub struct N").unwrap_or("");
+        let n_field = between(n, "pub v: ", ",").unwrap_or("?").trim().to_string();
+        let n_attr = between(n, "#[asn(integer(", ")").unwrap_or("?").replace(' ', "");
+        if n_field != field || n_attr != attr {
+            return Some(format!(
+                "named-differs field={} attr={} with named numbers outside of the range, field={} attr={} without",
+                n_field, n_attr, field, attr
+            ));
+        }
+        let l = after("pub struct L").unwrap_or("");
+        for (what, name, kind) in [("SEQUENCE OF", "v", "sequence_of"), ("SET OF", "w", "set_of")] {
+            let l_field = between(l, &format!("pub {}: ", name), ",\n").unwrap_or("?").trim().to_string();
+            let l_attr = between(l, &format!("#[asn({}(integer(", kind), ")").unwrap_or("?").replace(' ', "");
+            if l_field != format!("Vec<{}>", field) || l_attr != attr {
+                return Some(format!(
+                    "nested-differs field={} attr={} as element of a {} component, field={} attr={} as component",
+                    l_field, l_attr, what, field, attr
+                ));
+            }
+        }
+        // (a module of its own: `AsnDefWriter::stringify` below takes CHOICE tags from the attribute re-parse only)
+        let code2 = {
+            let text = format!(
+                "M DEFINITIONS AUTOMATIC TAGS ::= BEGIN C ::= CHOICE {{ v SEQUENCE OF INTEGER {}, z NULL }} END",
+                range
+            );
+            let model = Model::try_from(Tokenizer::default().parse(&text)).ok()?.try_resolve().ok()?;
+            let scope = [&model];
+            let mut generator = RustCodeGenerator::default();
+            generator.add_model(model.to_rust_with_scope(&scope[..]));
+            generator.to_string().ok()?.first()?.1.clone()
+        };
+        let c = code2.find("pub enum C").map(|i| &code2[i..]).unwrap_or("");
+        let c_field = between(c, "V(", ")").unwrap_or("?").trim().to_string();
+        let c_attr = between(c, "#[asn(sequence_of(integer(", ")").unwrap_or("?").replace(' ', "");
+        if c_field != format!("Vec<{}>", field) || c_attr != attr {
+            return Some(format!(
+                "nested-differs field={} attr={} as element of a SEQUENCE OF alternative, field={} attr={} as component",
+                c_field, c_attr, field, attr
+            ));
         }
     }
     let cty = between(&consts, "numbers::Constraint<", ">").unwrap_or("?").to_string();
